@@ -136,6 +136,12 @@ def _escaped_from_sut(exc):
     return None
 
 
+def _locale_of(sc):
+    from . import simproc
+
+    return sc.get("locale") or simproc.LOCALES[(sc.get("hash_salt", 0) >> 8) % len(simproc.LOCALES)]
+
+
 def _batch(args):
     cid, seed, tier, lo, hi, deadline, want_digests = args
     check = load_check(cid)
@@ -161,6 +167,12 @@ def _batch(args):
                 continue
             res["runs"] += 1
             res["counters"].update(ctx.counters)
+            for kn in ("parser", "policy", "version", "verbosity", "chunk", "ndirs"):
+                if kn in sc:
+                    res["counters"]["knob:%s/%s" % (kn, sc[kn])] += 1
+            if "pipes" in sc:
+                res["counters"]["knob:pipes/stdin-%s,stdout-%s" % tuple(sc["pipes"])] += 1
+            res["counters"]["knob:locale/" + _locale_of(sc)] += 1
             res["events"] += ctx.events
             if ctx.nontrivial:
                 res["nontrivial"] += 1
@@ -283,7 +295,8 @@ def write_evidence(cid, check, tier, seed, agg, wall_s, nviol, extra=None):
         "faults_fired": {k: v for k, v in sorted(agg["counters"].items()) if k.startswith(("crash@", "err@", "fault:"))},
         "reach_probes": {k: v for k, v in sorted(agg["counters"].items()) if k.startswith("probe:")},
         "op_raised": {k: v for k, v in sorted(agg["counters"].items()) if k.startswith("op_raised:")},
-        "other_counters": {k: v for k, v in sorted(agg["counters"].items()) if not k.startswith(("crash@", "err@", "fault:", "probe:", "op_raised:"))},
+        "environment_knobs": {k[5:]: v for k, v in sorted(agg["counters"].items()) if k.startswith("knob:")},
+        "other_counters": {k: v for k, v in sorted(agg["counters"].items()) if not k.startswith(("crash@", "err@", "fault:", "probe:", "op_raised:", "knob:"))},
         "states_measure": "distinct digests of (program shape, final state / journal, fault placement) among nontrivial runs",
         "components_real": check.REAL,
         "components_stubbed": check.STUB,
